@@ -32,9 +32,9 @@ def gen_dataset(rng, force=None):
     nrg = force.get("nrg", rng.choice([0, 1, 1, 2, 2, 3, 3, 4, 5, 6]))
     sizes = [rng.choice([1, 1, 2, 3, 4, 5, 8, 13]) for _ in range(nrg)]
     n = sum(sizes)
-    scheme = force.get("scheme", rng.choice(["simple", "simple", "hive", "hive"]))
+    scheme = force.get("scheme", rng.choice(["simple", "simple", "simple", "hive", "hive", "hive", "drill"]))
     part = []
-    if scheme == "hive" and n > 0:
+    if scheme in ("hive", "drill") and n > 0:
         part = force.get("part", rng.choice([[], ["p"], ["p"], ["p", "q"], ["q"]]))
     if part and nrg > 3:
         sizes = sizes[:3]
@@ -130,7 +130,7 @@ def build_dataset(ds, root):
         fastparquet.write(path, df, **kw)
     else:
         path = os.path.join(root, "ds")
-        fastparquet.write(path, df, file_scheme="hive", partition_on=ds["part"] or [], **kw)
+        fastparquet.write(path, df, file_scheme=ds["scheme"], partition_on=ds["part"] or [], **kw)
     if ds["fab"]:
         pf = fastparquet.ParquetFile(path)
         rgs = list(pf.fmd.row_groups)
